@@ -291,6 +291,41 @@ func cmdMigrate(args []string) {
 			}
 		}
 	}
+	// ---- (c) the rename the library itself declares: os.PathError became fs.PathError in Go 1.16;
+	// every earlier peer sends and expects "os/*os.PathError" ----
+	func() {
+		id := "C17-builtin-os.PathError"
+		ncases++
+		evals++
+		defer func() {
+			if p := recover(); p != nil {
+				fail(id, "panic: "+fmt.Sprint(p), "")
+			}
+		}()
+		const oldName = "os/*os.PathError"
+		local := &os.PathError{Op: "open", Path: "/p", Err: errors.New("cause")}
+		if k := string(errbase.GetTypeKey(local)); k != oldName {
+			fail(id, fmt.Sprintf("*fs.PathError is encoded under %q, not under its original name %q", k, oldName), "")
+			return
+		}
+		enc := errors.EncodeError(context.Background(), local)
+		w := enc.GetWrapper()
+		if w == nil || w.Details.ErrorTypeMark.FamilyName != oldName {
+			fail(id, "the wire family of a path error is not the original name", fmt.Sprint(enc))
+			return
+		}
+		// what a peer built before the rename sends
+		w.Details.ErrorTypeMark.FamilyName = oldName
+		w.Details.OriginalTypeName = oldName
+		dec := errors.DecodeError(context.Background(), enc)
+		if _, ok := dec.(*os.PathError); !ok {
+			fail(id, fmt.Sprintf("a path error arriving under the original name decodes to %T, not to the local (renamed) type", dec), "")
+			return
+		}
+		if !errors.Is(dec, local) || !errors.Is(local, dec) {
+			fail(id, "Is does not recognise a path error received from a peer built before the rename", "")
+		}
+	}()
 	_ = strings.Join
 	meta := map[string]interface{}{"prop": "C17", "cases": ncases, "distinct_nontrivial": ncases, "ops": map[string]int{},
 		"depth_hist": map[string]int{}, "samples": samples, "oracle_failures": fails, "oracle_evaluations": evals}
